@@ -231,7 +231,7 @@ CLAIMS = {
         "nothing (rerun_idempotent: row vectors literally unchanged) and a re-run after pushing facts into any relations equals the least model of the union "
         "of all inputs (monotone_rerun, via lfp(lfp I ∪ J) = lfp(I ∪ J)). For EVERY stratified program with aggregation / negation: the stratified restart theorem "
         "(restart_agg: a completed run from any value between the inputs and the stratified model ends in the stratified model) and its corollary rerun_idempotent_agg "
-        "(Props/C13Agg.lean; aggregators insensitive to input order, proved for the library ones: std_aggPermInvariant). Tied by driving compiled programs through generated histories of run/push/dump. Physical level (Props/C13Phys.lean): rerun_idempotent_phys, monotone_rerun_phys over the generated code's hash indices (Model/EnginePhys.lean). Props/C13PhysAgg.lean: over the physical indices also for stratified programs with aggregation / negation (restart_phys_agg, rerun_idempotent_phys_agg). Props/C13PhysLat.lean: the physical engine with lattices from any legal value (runPhysLat_from) and idempotence of run() (rerun_idempotent_physLat). Props/C13PhysPar.lean: the same for ascent_par! over its concurrent indices, the two runs in ANY two pools under ANY two schedules (rerun_idempotent_physPar, monotone_rerun_physPar, history_pool_irrelevant_physPar); tie `eng runpp` on parallel histories; BYODS relations (trrel, eqrel, trrel_uf) in run; run; push; run histories against the explicit-closure twin.",
+        "(Props/C13Agg.lean; aggregators insensitive to input order, proved for the library ones: std_aggPermInvariant). Tied by driving compiled programs through generated histories of run/push/dump. Physical level (Props/C13Phys.lean): rerun_idempotent_phys, monotone_rerun_phys over the generated code's hash indices (Model/EnginePhys.lean). Props/C13PhysAgg.lean: over the physical indices also for stratified programs with aggregation / negation (restart_phys_agg, rerun_idempotent_phys_agg). Props/C13PhysLat.lean: the physical engine with lattices from any legal value (runPhysLat_from) and idempotence of run() (rerun_idempotent_physLat). Props/C13PhysPar.lean: the same for ascent_par! over its concurrent indices, the two runs in ANY two pools under ANY two schedules (rerun_idempotent_physPar, monotone_rerun_physPar, history_pool_irrelevant_physPar); tie `eng runpp` on parallel histories; Props/C13PhysParAgg.lean: with stratified aggregation / negation (rerun_idempotent_physPar_agg, restart_physPar_agg); BYODS relations (trrel, eqrel, trrel_uf) in run; run; push; run histories against the explicit-closure twin.",
    design_ref="DESIGN.md §8 C13", note=ENGINE_NOTE + " Parallel re-runs are tied (compiled histories), not proved; F2 and F4 are fixed."),
  "C14": dict(
    engine="tie-B-engine",
@@ -240,7 +240,7 @@ CLAIMS = {
         "run_timeout=false leaves only derivable tuples, keeps every input and a well-formed value (timeout_false_sound); after any number of interruptions "
         "at any points a completing call leaves exactly the least model of the original inputs (resume_complete); the same for every stratified program with "
         "aggregation / negation relative to an uninterrupted reference run (timeout_false_sound_agg, resume_complete_agg, Props/C13Agg.lean). Tied by compiled programs with "
-        "#![generate_run_timeout] under the virtual-clock hook, for EVERY crash point k of every case plus repeated interruptions. Physical level (Props/C13Phys.lean over Model/EnginePhysTimeout.lean): timeout_sound_phys, timeout_true_complete_phys, resume_complete_phys (any number of interruptions: the indices dropped by early returns are rebuilt). Props/C13PhysAgg.lean: over the physical indices also for stratified programs with aggregation / negation, relative to an uninterrupted reference run (timeout_false_sound_phys_agg, timeout_true_complete_phys_agg, resume_complete_phys_agg). Props/C13PhysLat.lean: run_timeout of the physical engine with lattices (timeout_sound_physLat, resume_complete_physLat); tie `eng runtopl`. Props/C14PhysPar.lean (Model/EnginePhysParTimeout.lean): run_timeout of ascent_par! programs over the concurrent indices - every schedule, pool and deadline: no panic, sound, `true` = least model, resumable in any pool (timeout_never_panics_physPar, timeout_sound_physPar, timeout_true_complete_physPar, resume_complete_physPar); tie `eng runtopp`. Props/C14PhysParLat.lean (Model/EnginePhysParLatTimeout.lean): the same for ascent_par! programs WITH lattices (timeout_sound_physParLat, timeout_true_complete_physParLat, resume_complete_physParLat); tie `eng runtoppl`.",
+        "#![generate_run_timeout] under the virtual-clock hook, for EVERY crash point k of every case plus repeated interruptions. Physical level (Props/C13Phys.lean over Model/EnginePhysTimeout.lean): timeout_sound_phys, timeout_true_complete_phys, resume_complete_phys (any number of interruptions: the indices dropped by early returns are rebuilt). Props/C13PhysAgg.lean: over the physical indices also for stratified programs with aggregation / negation, relative to an uninterrupted reference run (timeout_false_sound_phys_agg, timeout_true_complete_phys_agg, resume_complete_phys_agg). Props/C13PhysLat.lean: run_timeout of the physical engine with lattices (timeout_sound_physLat, resume_complete_physLat); tie `eng runtopl`. Props/C14PhysPar.lean (Model/EnginePhysParTimeout.lean): run_timeout of ascent_par! programs over the concurrent indices - every schedule, pool and deadline: no panic, sound, `true` = least model, resumable in any pool (timeout_never_panics_physPar, timeout_sound_physPar, timeout_true_complete_physPar, resume_complete_physPar); tie `eng runtopp`. Props/C14PhysParLat.lean (Model/EnginePhysParLatTimeout.lean): the same for ascent_par! programs WITH lattices (timeout_sound_physParLat, timeout_true_complete_physParLat, resume_complete_physParLat); tie `eng runtoppl`. Props/C14PhysParAgg.lean: ascent_par! with stratified aggregation / negation (timeout_never_panics_physPar_agg, timeout_true_model_physPar_agg, timeout_false_sound_physPar_agg, resume_complete_physPar_agg).",
    design_ref="DESIGN.md §8 C14", note=ENGINE_NOTE + " The wall clock is replaced by the hook (ascent::internal::verif); lattice programs: Props/C13L."),
  "C19": dict(
    engine="tie-C-ds",
